@@ -156,7 +156,8 @@ def check(ctx):
     for p in returns(it.run_function(q)):
         pl = plots(p, q)
         loops = [e for e in p.events if e.kind == "for_iter" and e.func == q]
-        sel = next((c for _k, c, d in p.decisions if "Mod(" in d and "every" in d), None)
+        modk = ("eq", nf.key(nf.fn("op:Mod", nf.sym("i"), nf.sym("every"))))
+        sel = next((c for k, c, d in p.decisions if k == modk), None)
         sig = tuple(nf.key(it.to_nf(e.data["args"].get(k))) for e in pl for k in ("0", "1") if e.data["args"].get(k) is not None) + (tag(p),)
         if sig in seen:
             continue
